@@ -29,7 +29,7 @@ Inductive site :=
   | SIoCall | SDirect | SFileOpen | SHandleStore | SHandlePass | SHandleMethod | SHandleAttr | SHandleIndex | SHandleTest
   | SHandleReturn | SHandleWith | SHandleOther | SWsAlias | SFetchH5 | SReaderMut.
 Record row := { r_site : site; r_encl : string; r_cls : klass; r_callee : string; r_mode : rmode;
-                r_file : string; r_line : nat; r_end : nat }.
+                r_file : string; r_line : N; r_end : N }.
 
 Definition site_eqb (a b : site) : bool :=
   match a, b with
@@ -119,10 +119,13 @@ Definition call_in_table (t : list row) (c : iocall) : bool :=
                     && mode_eqb (req_of (r_mode r)) (c_req c)
                     && Bool.eqb (match r_cls r with Writer => true | _ => false end) (c_writer c)) t.
 (* run-time tie: the site (file, line) of the caller of _io_call is a table row with that routine and mode *)
-Definition site_in_table (t : list row) (file : string) (line : nat) (c : iocall) : bool :=
-  existsb (fun r => site_eqb (r_site r) SIoCall && String.eqb (r_file r) file && Nat.leb (r_line r) line && Nat.leb line (r_end r)
-                    && String.eqb (r_callee r) (c_fn c) && mode_eqb (req_of (r_mode r)) (c_req c)
-                    && Bool.eqb (match r_cls r with Writer => true | _ => false end) (c_writer c)) t.
+Definition site_in_table (t : list row) (file : string) (line : N) (c : iocall) : bool :=
+  existsb (fun r =>
+    if N.leb (r_line r) line then if N.leb line (r_end r) then if site_eqb (r_site r) SIoCall then
+      if mode_eqb (req_of (r_mode r)) (c_req c) then
+        if Bool.eqb (match r_cls r with Writer => true | _ => false end) (c_writer c) then
+          if String.eqb (r_callee r) (c_fn c) then String.eqb (r_file r) file else false
+        else false else false else false else false else false) t.
 
 Definition gated_call (c : iocall) : bool := negb (c_writer c) || writable (c_req c).
 
@@ -310,7 +313,7 @@ Definition agree_run (h : handle) (dm : mode) (lk : bool) (ops : list op)
   outcomes_eqb es obs_out && list_eqb handle_eqb hs obs_handles && list_eqb String.eqb (file wf) obs_log.
 
 (* every traced call sits at a table row (file, line range, routine, literal mode) *)
-Definition sites_ok (t : list row) (l : list (string * nat * iocall)) : bool :=
+Definition sites_ok (t : list row) (l : list (string * N * iocall)) : bool :=
   forallb (fun x => let '(f, n, c) := x in site_in_table t f n c) l.
 
 (* C11 case: with-block with an exception after k ops *)
